@@ -2,10 +2,10 @@
 set with small entries, compaction run to completion at intervals; oracle: accounting on every dump
 and the allocation bound once compaction is done and idle tables are freed."""
 from streams import kv
-from streams.kv import hx, keyof, T0
+from streams.kv import hx, keyof, parse_dump, T0
 
 HEADER = 4
-REQUIRED_SHAPES = ["bound_checked", "overwrite", "delete_present", "compaction_step"]
+REQUIRED_SHAPES = ["bound_checked", "overwrite", "delete_present", "compaction_step", "done_checked_below_threshold", "drain_needs_several_batches", "tables_bounded_by_keys_mixed_sizes"]
 
 
 class Oracle(kv.Oracle):
@@ -20,6 +20,29 @@ class Oracle(kv.Oracle):
         f = op.split()
         if f[0] == "boundcheck":
             return None
+        # C20: Compaction answers done only when no table behind the one being written holds 40 % garbage or more
+        if f[0] == "compact":
+            self.just_done = (reply == "done")
+            if reply.startswith("more"):
+                self.batches = getattr(self, "batches", 0) + 1
+                if self.batches >= 2 and getattr(self, "big", False):
+                    self.hit("drain_needs_several_batches")
+            else:
+                self.batches = 0
+            return None
+        if f[0] == "dump":
+            if getattr(self, "just_done", False):
+                self.hit("done_checked_below_threshold")
+                for t in parse_dump(reply):
+                    if t["state"] != "rw" and not t["slots"] and t["garbage"] > 0:
+                        return ("Compaction answered done although table cf=%d (%s) holds no live entry and %d bytes of garbage of %d allocated: "
+                                "it is kept for nothing (and never reaches the 40 %% ratio)" % (t["cf"], t["state"], t["garbage"], t["alloc"]))
+                    if t["state"] != "rw" and t["garbage"] * 5 >= t["alloc"] * 2:
+                        return ("Compaction answered done although table cf=%d (%s) holds %d bytes of garbage of %d allocated, "
+                                "%d entries still live in it" % (t["cf"], t["state"], t["garbage"], t["alloc"], len(t["slots"])))
+            return None
+        if f[0] not in ("stats", "clock", "get", "scan", "range", "rangehkey"):
+            self.just_done = False
         if f[0] == "stats" and self.expect_bound.pop(f[1], False):
             r = [int(x) for x in reply.split()]
             alloc, inuse, garbage, length, ntab = r
@@ -29,6 +52,14 @@ class Oracle(kv.Oracle):
             per = (6 * T) // 10 - E
             bound = T * (inuse // per + 3)
             self.hit("bound_checked")
+            # every table behind the one being written holds a live entry of its own once compaction is done and the idle
+            # tables were freed (C20_tables_le_keys): tables <= present keys + the head (+ 1)
+            if ntab > length + 2:
+                return ("after compaction completed and idle tables were freed: %d tables for %d present keys "
+                        "(%d bytes allocated, %d in use, %d garbage): tables without a live entry are kept" % (ntab, length, alloc, inuse, garbage))
+            if getattr(self, "mixed", False):
+                self.hit("tables_bounded_by_keys_mixed_sizes")
+                return None
             if alloc > bound:
                 return ("after compaction completed: allocated %d bytes in %d tables for %d live bytes "
                         "(bound %d with table size %d, entries <= %d)" % (alloc, ntab, inuse, bound, T, E))
@@ -76,8 +107,74 @@ class Gen(kv.Gen):
             return "compact a"
         return self.tick()
 
+    def big(self, orc):
+        """directed: a table with far more entries than one evictTable call moves (1001): fill it, roll over, delete
+        45 % of it, compact to completion (several batches), check the tables when done is answered"""
+        r = self.rng
+        self.T, self.idle, self.maxentry = 65536, 10**9, 64
+        orc.maxentry = 64
+        orc.big = True
+        yield "watchdog 60s"
+        yield "clock %d" % self.now
+        yield "kv.new a %d %d" % (self.T, self.idle)
+        yield "kv.new b %d %d" % (self.T, self.idle)
+        n = 2100
+        for hk in range(n):
+            self.tsctr += 1
+            k = keyof(hk)
+            yield "put a %d %s %s 0 %d" % (hk, hx(k), hx(b"x"), self.tsctr)
+        dels = list(range(0, 1900, 2))[:r.choice([850, 900])]
+        for hk in dels:
+            yield "del a %d" % hk
+        yield "stats a"
+        for _ in range(40):
+            rep = yield "compact a"
+            if not rep.startswith("more"):
+                break
+        yield "dump a"
+        orc.expect_bound["a"] = True
+        yield "stats a"
+        for hk in r.sample(range(n), 40):
+            yield "get a %d" % hk
+        orc.big = False
+
+    def mixed(self, orc):
+        """directed: small and large entries alternate (the large one does not fit behind the small one), so tables are
+        retired nearly empty; their few entries are then overwritten.  Compaction to completion after every round."""
+        r = self.rng
+        self.T, self.idle = 1000, 10**9
+        orc.maxentry = 960
+        orc.mixed = True
+        yield "watchdog 60s"
+        yield "clock %d" % self.now
+        yield "kv.new a %d %d" % (self.T, self.idle)
+        yield "kv.new b %d %d" % (self.T, self.idle)
+        small, large = r.choice([20, 48, 90]), r.choice([880, 919])
+        for i in range(r.choice([25, 40])):
+            for hk, n in ((1, small), (2, large)):
+                self.tsctr += 1
+                if self.backup:
+                    yield "putraw a %d %s %s 0 %d %d" % (hk, hx(keyof(hk)), hx(bytes([i % 250 + 1]) * n), self.tsctr, self.now)
+                else:
+                    yield "put a %d %s %s 0 %d" % (hk, hx(keyof(hk)), hx(bytes([i % 250 + 1]) * n), self.tsctr)
+            if r.random() < 0.8:
+                for _ in range(8):
+                    rep = yield "compact a"
+                    if not rep.startswith("more"):
+                        break
+        yield from self.settle(orc)
+        yield "get a 1"
+        yield "get a 2"
+
     def episode(self, orc, nops):
         self.orc_hit = orc.hit
+        if getattr(self, "ep", -1) == 1:
+            yield from self.big(orc)
+            return
+        if getattr(self, "ep", -1) == 2:
+            self.backup = self.rng.random() < 0.5
+            yield from self.mixed(orc)
+            return
         for op in self.start():
             yield op
         orc.maxentry = self.maxentry
